@@ -165,9 +165,150 @@ static void vf_native(void)
         ])
 
 
+def q_subset(Dnew, H, Dold, n, tag, nmax):
+    """every new element (k<n) equals some old element (j<n): forall k, OR_j"""
+    ors = " || ".join("(%d < (%s) && %s((%s)[%d]) == (%s)[k%s])" % (j, n, H, Dold, j, Dnew, tag) for j in range(nmax))
+    return ("__CPROVER_forall { int k%s; (0 <= k%s && k%s < NMAX) ==> (k%s >= (%s) || %s) }" % (tag, tag, tag, tag, n, ors))
+
+
+def q_range(D, n, lo, hi, tag):
+    return ("__CPROVER_forall { int k%s; (0 <= k%s && k%s < NMAX) ==> (k%s >= (%s) || ((%s) <= (%s)[k%s] && (%s)[k%s] <= (%s))) }"
+            % (tag, tag, tag, tag, n, lo, D, tag, D, tag, hi))
+
+
+SORT_NATIVE = r"""
+static int nat_cnt(const double* d, const int* ix, int n, double w, int j)
+{ int c = 0; for (int k = 0; k < n; k++) if (d[k] == w && ix[k] == j) c++; return c; }
+static void vf_native(void)
+{
+  int n = W_size;
+  if (!(0 <= n && n <= NMAX)) exit(77);
+  for (int k = 0; k < n; k++) if (W_D[k] != W_D[k]) exit(77);
+  double D0[2 * NMAX]; int I0[2 * NMAX];
+  memcpy(D0, W_D, sizeof D0); memcpy(I0, W_I, sizeof I0);
+  simultaneous_sort(W_D, W_I, n);
+  for (int k = 1; k < n; k++) __CPROVER_assert(W_D[k - 1] <= W_D[k], "ascending order after simultaneous_sort");
+  for (int t = 0; t < n; t++)
+    __CPROVER_assert(nat_cnt(D0, I0, n, D0[t], I0[t]) == nat_cnt(W_D, W_I, n, D0[t], I0[t]), "pair multiset preserved");
+  if (vf_fail) return;
+  /* the modular counterexample need not be a concrete failing input (recursive calls were replaced by their
+     contract): bounded search for one over all permutations of 0..m-1, m <= 7 */
+  for (int m = 2; m <= 7 && m <= NMAX && !vf_fail; m++) {
+    int perm[8]; for (int k = 0; k < m; k++) perm[k] = k;
+    for (;;) {
+      double d[8]; int ix[8];
+      for (int k = 0; k < m; k++) { d[k] = perm[k]; ix[k] = 100 + perm[k]; }
+      simultaneous_sort(d, ix, m);
+      int bad = 0;
+      for (int k = 0; k < m; k++) if (d[k] != k || ix[k] != 100 + k) bad = 1;
+      if (bad) { printf("failing input found by permutation search: size=%d dist=", m);
+                 for (int k = 0; k < m; k++) printf("%d ", perm[k]);
+                 printf("\n"); __CPROVER_assert(0, "simultaneous_sort does not sort this permutation"); break; }
+      int i = m - 2; while (i >= 0 && perm[i] > perm[i + 1]) i--;
+      if (i < 0) break;
+      int j = m - 1; while (perm[j] < perm[i]) j--;
+      int t = perm[i]; perm[i] = perm[j]; perm[j] = t;
+      for (int a = i + 1, b = m - 1; a < b; a++, b--) { t = perm[a]; perm[a] = perm[b]; perm[b] = t; }
+    }
+  }
+}
+"""
+
+SORT_HARNESS = """
+void vf_harness(void)
+{
+  vf_havoc_inputs();
+  vf_lo = W_lo; vf_hi = W_hi;
+  simultaneous_sort(W_D, W_I, W_size);
+  VF_REACH();
+}
+"""
+SORT_SIG = r"^void simultaneous_sort\(double\* dist, int\* idx, int size\)\s*$"
+# ghost bounds handed to the two recursive calls (annotation only: ghost assignments before each call)
+SORT_GHOST = [
+    (r"(if \(pivot_idx > 1\) )(simultaneous_sort\(dist, idx, pivot_idx\);)",
+     r"\1{ double vf_s = vf_hi; vf_hi = pivot_val; \2 vf_hi = vf_s; }", 1),
+    (r"(if \(pivot_idx [^\n]{1,12} size\)\s*\n\s*)(simultaneous_sort\(dist \+ pivot_idx \+ 1, idx \+ pivot_idx \+ 1,\s*\n\s*size - pivot_idx - 1\);)",
+     r"\1{ double vf_s = vf_lo; vf_lo = pivot_val; \2 vf_lo = vf_s; }", 1),
+]
+
+
+def unit_sort_order(nmax):
+    """ascending order (+ value range preservation, which the recursion needs)"""
+    contract = "\n".join([
+        "__CPROVER_requires(0 <= size && size <= NMAX)",
+        "__CPROVER_requires(%s)" % q_nonan("dist", "size", "a"),
+        "__CPROVER_requires(vf_lo == vf_lo && vf_hi == vf_hi)",
+        "__CPROVER_requires(%s)" % q_range("dist", "size", "vf_lo", "vf_hi", "r"),
+        "__CPROVER_assigns(__CPROVER_object_upto(dist, size * sizeof(double)), __CPROVER_object_upto(idx, size * sizeof(int)), vf_lo, vf_hi)",
+        "__CPROVER_ensures(%s)" % q_sorted("dist", "size", "b"),
+        "__CPROVER_ensures(%s)" % q_nonan("dist", "size", "c"),
+        "__CPROVER_ensures(%s)" % q_range("dist", "size", "vf_lo", "vf_hi", "s"),
+        "__CPROVER_ensures(vf_lo == __CPROVER_old(vf_lo) && vf_hi == __CPROVER_old(vf_hi))",
+    ])
+    loop = "\n".join([
+        "__CPROVER_assigns(i, store_idx, __CPROVER_object_upto(dist, size * sizeof(double)), __CPROVER_object_upto(idx, size * sizeof(int)))",
+        "__CPROVER_loop_invariant(0 <= store_idx && store_idx <= i && i <= size - 1 && size >= 4 && size <= NMAX)",
+        "__CPROVER_loop_invariant(dist[size - 1] == pivot_val)",
+        "__CPROVER_loop_invariant(__CPROVER_forall { int ke; (0 <= ke && ke < NMAX) ==> (ke >= store_idx || dist[ke] < pivot_val) })",
+        "__CPROVER_loop_invariant(__CPROVER_forall { int kf; (0 <= kf && kf < NMAX) ==> (kf < store_idx || kf >= i || dist[kf] >= pivot_val) })",
+        "__CPROVER_loop_invariant(%s)" % q_nonan("dist", "size", "g"),
+        "__CPROVER_loop_invariant(%s)" % q_range("dist", "size", "vf_lo", "vf_hi", "t"),
+        "__CPROVER_decreases(size - i)",
+    ])
+    dswap = Fn("dual_swap", HEAP, r"^void dual_swap\(double\* darr, int\* iarr, int i1, int i2\)\s*$")
+    fn = Fn("simultaneous_sort", HEAP, SORT_SIG, contract=contract, loops={1: loop}, rewrites=SORT_GHOST)
+    return Unit(
+        "C06.simultaneous_sort.order", [dswap, fn],
+        prelude=helpers(nmax) + "double vf_lo, vf_hi;\n", harness=SORT_HARNESS,
+        inputs=[("double", "W_D", "2 * NMAX"), ("int", "W_I", "2 * NMAX"), ("int", "W_size"),
+                ("double", "W_lo"), ("double", "W_hi"), ("double", "W_gw"), ("int", "W_gj")],
+        defines={"NMAX": nmax}, enforce="simultaneous_sort", rec=True, backends=("minisat", "cadical"), timeout=1200, split=True,
+        native=SORT_NATIVE,
+        claim=("simultaneous_sort leaves the row in ascending distance order (and inside any closed value range that "
+               "contained it); recursion closed by its own contract, partition loop by invariant (slice length <= %d)" % nmax),
+        assumptions=["slice length <= %d (quantifier range)" % nmax, "distances are not NaN",
+                     "ghost bounds vf_lo/vf_hi: two ghost assignments inserted before the recursive calls (listed under rewrites)"],
+        canaries=[
+            {"fn": "simultaneous_sort", "rx": r"if \(dist\[i\] < pivot_val\)", "rp": "if (dist[i] > pivot_val)",
+             "expect": r"simultaneous_sort\.(postcondition|loop_invariant_step)"},
+        ])
+
+
+def unit_sort_multiset(nmax):
+    """the (distance,index) pair multiset is unchanged"""
+    contract = "\n".join([
+        "__CPROVER_requires(0 <= size && size <= NMAX)",
+        "__CPROVER_assigns(__CPROVER_object_upto(dist, size * sizeof(double)), __CPROVER_object_upto(idx, size * sizeof(int)))",
+        "__CPROVER_ensures(VF_CNT(dist, idx, size, W_gw, W_gj) == VF_CNT_H(__CPROVER_old, dist, idx, size, W_gw, W_gj))",
+    ])
+    loop = "\n".join([
+        "__CPROVER_assigns(i, store_idx, __CPROVER_object_upto(dist, size * sizeof(double)), __CPROVER_object_upto(idx, size * sizeof(int)))",
+        "__CPROVER_loop_invariant(0 <= store_idx && store_idx <= i && i <= size - 1 && size >= 4 && size <= NMAX)",
+        "__CPROVER_loop_invariant(VF_CNT(dist, idx, size, W_gw, W_gj) == VF_CNT_H(__CPROVER_loop_entry, dist, idx, size, W_gw, W_gj))",
+        "__CPROVER_decreases(size - i)",
+    ])
+    dswap = Fn("dual_swap", HEAP, r"^void dual_swap\(double\* darr, int\* iarr, int i1, int i2\)\s*$")
+    fn = Fn("simultaneous_sort", HEAP, SORT_SIG, contract=contract, loops={1: loop})
+    return Unit(
+        "C06.simultaneous_sort.multiset", [dswap, fn],
+        prelude=helpers(nmax) + "double vf_lo, vf_hi;\n", harness=SORT_HARNESS,
+        inputs=[("double", "W_D", "2 * NMAX"), ("int", "W_I", "2 * NMAX"), ("int", "W_size"),
+                ("double", "W_lo"), ("double", "W_hi"), ("double", "W_gw"), ("int", "W_gj")],
+        defines={"NMAX": nmax}, enforce="simultaneous_sort", rec=True, backends=("minisat", "cadical"), timeout=1200, split=True,
+        native=SORT_NATIVE,
+        claim=("simultaneous_sort preserves the multiset of (distance,index) pairs of the row (ghost pair form), "
+               "slice length <= %d" % nmax),
+        assumptions=["slice length <= %d (quantifier range)" % nmax],
+        canaries=[
+            {"fn": "dual_swap", "rx": r"iarr\[i2\]\s*= itmp;", "rp": "iarr[i2] = iarr[i1];",
+             "expect": r"simultaneous_sort\.(postcondition|loop_invariant_step)"},
+        ])
+
+
 def units(tier):
-    nmax = 8 if tier == "quick" else 12
-    return [unit_nheap_push(nmax)]
+    nmax = int(__import__("os").environ.get("VF_NMAX", 0)) or (6 if tier == "quick" else 10)
+    return [unit_nheap_push(nmax), unit_sort_order(nmax), unit_sort_multiset(nmax)]
 
 
 META = {
